@@ -35,6 +35,7 @@ type Options struct {
 	SolverLog  string
 	Verbose    bool
 	EagerAssume bool
+	BudgetSec  int // wall-clock budget per harness (0 = none); exhausted budget is reported as a bound hit
 }
 
 type Harness struct {
@@ -51,6 +52,7 @@ type Harness struct {
 	Params      map[string]int // per-tier overrides from directives
 	StubGroups  map[string]bool
 	Init        map[string]bool
+	SchedFirst  bool // one canonical goroutine schedule instead of all interleavings
 }
 
 type Engine struct {
@@ -214,6 +216,8 @@ func Load(opt Options) (*Engine, error) {
 				switch d[1] {
 				case "prop":
 					h.Props = append(h.Props, strings.Fields(arg)...)
+				case "sched":
+					h.SchedFirst = arg == "first"
 				case "init":
 					for _, g := range strings.Fields(arg) {
 						h.Init[g] = true
@@ -327,6 +331,15 @@ func (e *Engine) RunHarness(h *Harness) (*HarnessResult, error) {
 	} else {
 		e.sampleBudget.Store(24)
 	}
+	e.stop.Store(false)
+	var timer *time.Timer
+	truncated := false
+	if e.Opt.BudgetSec > 0 {
+		timer = time.AfterFunc(time.Duration(e.Opt.BudgetSec)*time.Second, func() {
+			truncated = true
+			e.stop.Store(true)
+		})
+	}
 	e.sched = &sched{workers: n}
 	e.sched.cond = sync.NewCond(&e.sched.mu)
 	e.sched.put(Job{H: h})
@@ -341,6 +354,9 @@ func (e *Engine) RunHarness(h *Harness) (*HarnessResult, error) {
 				job, ok := e.sched.get()
 				if !ok {
 					break
+				}
+				if e.stopRequested() {
+					continue // drain the queue
 				}
 				if w == nil {
 					var err error
@@ -370,5 +386,11 @@ func (e *Engine) RunHarness(h *Harness) (*HarnessResult, error) {
 		r = newResult(h.Name)
 	}
 	r.Wall = time.Since(t0)
+	if timer != nil {
+		timer.Stop()
+	}
+	if truncated {
+		r.BoundHits[fmt.Sprintf("time budget of %d s exhausted: exploration truncated after %d paths", e.Opt.BudgetSec, r.Paths)]++
+	}
 	return r, nil
 }
